@@ -20,8 +20,10 @@
                                      field: the state reached by the loop with its rejections agrees, on
                                      everything an attempt reads, with the state of a run performed
                                      directly with the accepted steps (induction on the script).
-  What is assumed rather than proved: that `iterate` (MTest::prepare, the behaviour integration, the
-  Newton update) reads only the view and writes no `pers` field — the mock of the harness does by
+  * `solver_attempt_writes_no_persistent_field`   the statements of `iterate` / `iterate2` in GenericSolver.cxx
+                                     (scanned on every run) write no `pers` field — the period counter included.
+  What is assumed rather than proved: that the rest of an attempt (MTest::prepare, the behaviour integration,
+  the Newton update) reads only the view and writes no `pers` field — the mock of the harness does by
   construction, MTest.cxx is read (see checks/meta/C50.json).
 -/
 import TfelVerif.C50.Lemmas
@@ -54,6 +56,19 @@ theorem update_leaves_clean_state (bump : V → V) (dt : V) (s : Study V) : Clea
 theorem revert_leaves_clean_state (s : Study V) : Clean s.revert := by
   simp only [Clean, Study.view, Prod.mk.injEq]
   exact ⟨Study.revert_pers _, Study.revert_idem s⟩
+
+/-- The attempt functions of the solver itself (`iterate` / `iterate2` of GenericSolver.cxx) write none of
+the `pers` fields of the study state directly: the lists are regenerated from the sources on every run
+(GenState.lean: `iterateWrites` = the `scs.` fields they increment, assign or alias; `studyPersNames` =
+the `pers` fields, the period counter among them). This is the part of the frame hypothesis of
+`rejected_steps_leave_no_trace` that lives in GenericSolver.cxx: e.g. the period counter, which selects
+the packaging step, is passed to the tests and enables the linear prediction, may only be incremented
+by `execute` when a step is accepted. -/
+theorem solver_attempt_writes_no_persistent_field : ∀ f ∈ Gen.iterateWrites, f ∉ Gen.studyPersNames := by
+  decide
+
+/-- the period counter is one of the fields an attempt reads and must not write -/
+theorem period_is_persistent : "period" ∈ Gen.studyPersNames := by decide
 
 /-- the time stepping system on the generated state: any attempt function, any controller -/
 def studySys {C K A : Type} (att : K → C → Study V → Study V × A) (accepted : C → A → Bool)
